@@ -556,6 +556,11 @@ def main():
                         cross = [cross_kinds[(n + j) % len(cross_kinds)] for j in range(2)] if n % 2 == 0 else []
                         if code == "3" and "irr" not in cross:
                             cross = cross[:1] + ["irr"]
+                        # deterministic coverage of the object kinds that carry derived state
+                        if code == "0":
+                            cross = list(dict.fromkeys(cross + ["crop", "soil"]))
+                        if cfg.get("co2") == {"constant_conc": True} and ci in (0, 3, 5):
+                            cross = list(dict.fromkeys(cross + ["co2"]))
                     else:
                         cross = cross_kinds if r < 1 else [cross_kinds[(n + j) % len(cross_kinds)] for j in range(3)]
                     jobs.append({"cfg": cfg, "cross": cross, "sanity": not quick})
